@@ -556,7 +556,11 @@ def sketch_roles(pa):
         for name, v, n in aps:
             if isinstance(v, ast.Call) and dotted(v.func) == "parallel_merging" and v.args and isinstance(v.args[0], ast.Name) and v.args[0].id == arr:
                 collected = name
+                raw = n.args[0]
+                if isinstance(raw, ast.Name) and raw.id == fin:
+                    continue          # the already counted `fin = parallel_merging(arr, ...)` appended under its name
                 merges.append(v)
+        merges = list({id(x): x for x in merges}.values())      # `f = parallel_merging(a); out.append(f)` names one merge twice
         roles[tag] = {"array": arr, "final": fin, "args": "%s_args" % tag, "appends": ap_nodes, "merges": merges, "collected": collected}
     return roles
 
